@@ -366,6 +366,7 @@ Section Reselect.
       + cbn [good] in G. destruct G as (-> & L0 & _). cbn [levels_kept] in K.
         unfold set_data_comp in *. cbn [tcomp_sel tc_kind tc_value tc_name]. rewrite Ek, Ev in *.
         cbn [val_sel]. change (sel (option string) bd) with (select keep bd). rewrite K.
+        match type of H with (if ?c then _ else _) = _ => destruct c; [discriminate H|] end.
         apply bind_ok in H as (cm & Hcode & H). rewrite Hcode. cbn [bind].
         injection H as <-. unfold dcomp_sel.
         cbn [dc_t dc_levels dc_contrast dc_rows dc_labels dc_spans].
